@@ -505,4 +505,442 @@ Section Facts.
     exists r. repeat split; try assumption.
     rewrite (admits_slashless _ _ _ _ _ (eq_sym Hsig) Hwk Hc), Hstrict. reflexivity.
   Qed.
+
+  (* ================================================================== completeness *)
+  Lemma NoDup_app_one {A} (l : list A) x : NoDup l -> ~ In x l -> NoDup (l ++ [x]).
+  Proof.
+    intros Hl Hx. induction Hl as [|y l Hy Hl IH]; cbn [app]; [constructor; [intros []|constructor]|].
+    constructor.
+    - intro Hin. apply in_app_or in Hin. destruct Hin as [Hin|[<-|[]]]; [exact (Hy Hin)|]. apply Hx. left. reflexivity.
+    - apply IH. intro Hin. apply Hx. right. exact Hin.
+  Qed.
+
+  Lemma list_eqb_true_iff a b : list_eqb a b = true <-> a = b.
+  Proof. split; [apply list_eqb_eq|intros ->; apply list_eqb_refl]. Qed.
+
+  (* static transitions of every state have distinct keys (a dict) *)
+  Inductive wfk : state -> Prop :=
+  | wfk_intro dyn rules stat :
+      NoDup (map fst stat) ->
+      (forall k c, In (k, c) stat -> wfk c) -> (forall d c, In (d, c) dyn -> wfk c) ->
+      wfk (St dyn rules stat).
+
+  Lemma wfk_empty : wfk empty_state.
+  Proof. constructor; [constructor|intros ? ? []|intros ? ? []]. Qed.
+
+  Lemma stat_upd_keys k f l :
+    map fst (Trie.stat_upd dpart rule k f l) = if existsb (fun kc => list_eqb (fst kc) k) l then map fst l else map fst l ++ [k].
+  Proof.
+    induction l as [|[k0 c0] l IH]; cbn [Trie.stat_upd existsb map fst]; [reflexivity|].
+    destruct (list_eqb k0 k) eqn:E; cbn [orb map fst]; [reflexivity|]. rewrite IH.
+    match goal with |- context [existsb ?f l] => destruct (existsb f l) end; reflexivity.
+  Qed.
+
+  Lemma existsb_key_in k l :
+    existsb (fun kc : str * state => list_eqb (fst kc) k) l = false -> ~ In k (map fst l).
+  Proof.
+    induction l as [|[k0 c0] l IH]; cbn [existsb map fst]; [intros _ []|].
+    intro H. apply orb_false_elim in H. destruct H as [H1 H2]. intros [Heq|Hin]; [|exact (IH H2 Hin)].
+    subst k0. rewrite list_eqb_refl in H1. discriminate.
+  Qed.
+
+  Lemma wfk_add ps r : forall s, wfk s -> wfk (add_parts ps r s).
+  Proof.
+    induction ps as [|p ps IH]; intros s Hs; inversion Hs as [dyn rules stat Hnd Hst Hdy]; subst.
+    - cbn [Trie.add_parts Trie.st_dyn Trie.st_rules Trie.st_stat]. constructor; assumption.
+    - destruct p as [k|d]; cbn [Trie.add_parts Trie.st_dyn Trie.st_rules Trie.st_stat]; constructor; try assumption.
+      + rewrite stat_upd_keys.
+        match goal with |- context [existsb ?f stat] => destruct (existsb f stat) eqn:E end; [exact Hnd|].
+        apply NoDup_app_one; [exact Hnd|]. apply existsb_key_in. exact E.
+      + intros k' c Hin. apply stat_upd_in in Hin. destruct Hin as [Hin|(-> & [(c0 & Hin & ->)| ->])].
+        * eapply Hst; eassumption.
+        * apply IH. eapply Hst; eassumption.
+        * apply IH. exact wfk_empty.
+      + intros d' c Hin. apply dyn_upd_in in Hin. destruct Hin as [Hin|(-> & [(c0 & Hin & ->)| ->])].
+        * eapply Hdy; eassumption.
+        * apply IH. eapply Hdy; eassumption.
+        * apply IH. exact wfk_empty.
+  Qed.
+
+  Lemma in_insert_dyn x l y : y = x \/ In y l -> In y (Trie.insert_dyn dpart rule wlt x l).
+  Proof.
+    induction l as [|z l IH]; cbn [Trie.insert_dyn].
+    - intros [->|[]]. left. reflexivity.
+    - destruct (wlt (fst z) (fst x)).
+      + intros [->|[->|H]]; [right; apply IH; left; reflexivity|left; reflexivity|right; apply IH; right; exact H].
+      + intros [->|H]; [left; reflexivity|right; exact H].
+  Qed.
+  Lemma in_sort_dyn l y : In y l -> In y (Trie.sort_dyn dpart rule wlt l).
+  Proof.
+    induction l as [|x l IH]; cbn [Trie.sort_dyn fold_right]; [intros []|].
+    intros [->|H]; apply in_insert_dyn; [left; reflexivity|right; exact (IH H)].
+  Qed.
+
+  Lemma wfk_update : forall s, wfk s -> wfk (update s).
+  Proof.
+    induction s as [dyn rules stat IHd IHs] using state_ind'. intro H. inversion H as [? ? ? Hnd Hst Hdy]; subst.
+    cbn [Trie.update]. constructor.
+    - rewrite map_map. cbn [fst]. exact Hnd.
+    - intros k c Hin. apply in_map_iff in Hin. destruct Hin as ([k0 c0] & Heq & Hin0). cbn [fst snd] in Heq.
+      injection Heq as <- <-. eapply IHs; [exact Hin0|]. eapply Hst; exact Hin0.
+    - intros d c Hin. apply sort_dyn_in in Hin. apply in_map_iff in Hin. destruct Hin as ([d0 c0] & Heq & Hin0).
+      cbn [fst snd] in Heq. injection Heq as <- <-. eapply IHd; [exact Hin0|]. eapply Hdy; exact Hin0.
+  Qed.
+
+  Lemma wfk_build rules : wfk (build_trie rules).
+  Proof.
+    unfold Trie.build_trie. apply wfk_update.
+    assert (H : forall s0, wfk s0 -> wfk (fold_left (fun s r => add_parts (rparts r) r s) rules s0)).
+    { induction rules as [|r rs IH]; intros s0 Hs; [exact Hs|]. cbn [fold_left]. apply IH. apply wfk_add. exact Hs. }
+    apply H. exact wfk_empty.
+  Qed.
+
+  (* --- every rule of the map is stored behind its own parts *)
+  Lemma stat_upd_keep k f l k0 c0 :
+    In (k0, c0) l ->
+    In (k0, c0) (Trie.stat_upd dpart rule k f l) \/ (k0 = k /\ In (k0, f c0) (Trie.stat_upd dpart rule k f l)).
+  Proof.
+    induction l as [|[k1 c1] l IH]; [intros []|]. cbn [Trie.stat_upd]. intros [Heq|Hin].
+    - injection Heq as -> ->. destruct (list_eqb k0 k) eqn:E.
+      + apply list_eqb_eq in E. right. split; [exact E|left; reflexivity].
+      + left. left. reflexivity.
+    - destruct (list_eqb k1 k).
+      + left. right. exact Hin.
+      + destruct (IH Hin) as [H|[H1 H2]]; [left; right; exact H|right; split; [exact H1|right; exact H2]].
+  Qed.
+
+  Lemma dyn_upd_keep d f l d0 c0 :
+    In (d0, c0) l ->
+    In (d0, c0) (Trie.dyn_upd dpart rule dpart_eqb d f l) \/ (d0 = d /\ In (d0, f c0) (Trie.dyn_upd dpart rule dpart_eqb d f l)).
+  Proof.
+    induction l as [|[d1 c1] l IH]; [intros []|]. cbn [Trie.dyn_upd]. intros [Heq|Hin].
+    - injection Heq as -> ->. destruct (dpart_eqb d0 d) eqn:E.
+      + apply dpart_eqb_eq in E. right. split; [exact E|left; reflexivity].
+      + left. left. reflexivity.
+    - destruct (dpart_eqb d1 d).
+      + left. right. exact Hin.
+      + destruct (IH Hin) as [H|[H1 H2]]; [left; right; exact H|right; split; [exact H1|right; exact H2]].
+  Qed.
+
+  Lemma stored_add_mono ps r0 : forall s r sigma, stored r s sigma -> stored r (add_parts ps r0 s) sigma.
+  Proof.
+    induction ps as [|p ps IH]; intros [dyn rules stat] r sigma H.
+    - cbn [Trie.add_parts Trie.st_dyn Trie.st_rules Trie.st_stat]. inversion H; subst.
+      + constructor. apply in_or_app. left. assumption.
+      + eapply stored_stat; eassumption.
+      + eapply stored_dyn; eassumption.
+    - destruct p as [k|d]; cbn [Trie.add_parts Trie.st_dyn Trie.st_rules Trie.st_stat]; inversion H; subst.
+      + constructor. assumption.
+      + match goal with Hi : In (_, _) stat |- _ =>
+          destruct (stat_upd_keep k (add_parts ps r0) _ _ _ Hi) as [Hk|[_ Hk]] end.
+        * eapply stored_stat; eassumption.
+        * eapply stored_stat; [exact Hk|]. apply IH. assumption.
+      + eapply stored_dyn; eassumption.
+      + constructor. assumption.
+      + eapply stored_stat; eassumption.
+      + match goal with Hi : In (_, _) dyn |- _ =>
+          destruct (dyn_upd_keep d (add_parts ps r0) _ _ _ Hi) as [Hk|[_ Hk]] end.
+        * eapply stored_dyn; eassumption.
+        * eapply stored_dyn; [exact Hk|]. apply IH. assumption.
+  Qed.
+
+  Lemma stat_upd_has k f l : exists c, In (k, c) (Trie.stat_upd dpart rule k f l) /\ exists c0, c = f c0.
+  Proof.
+    induction l as [|[k1 c1] l IH]; cbn [Trie.stat_upd].
+    - exists (f empty_state). split; [left; reflexivity|eexists; reflexivity].
+    - destruct (list_eqb k1 k) eqn:E.
+      + apply list_eqb_eq in E. subst k1. exists (f c1). split; [left; reflexivity|eexists; reflexivity].
+      + destruct IH as (c & Hin & Hc). exists c. split; [right; exact Hin|exact Hc].
+  Qed.
+  Lemma dyn_upd_has d f l : exists c, In (d, c) (Trie.dyn_upd dpart rule dpart_eqb d f l) /\ exists c0, c = f c0.
+  Proof.
+    induction l as [|[d1 c1] l IH]; cbn [Trie.dyn_upd].
+    - exists (f empty_state). split; [left; reflexivity|eexists; reflexivity].
+    - destruct (dpart_eqb d1 d) eqn:E.
+      + apply dpart_eqb_eq in E. subst d1. exists (f c1). split; [left; reflexivity|eexists; reflexivity].
+      + destruct IH as (c & Hin & Hc). exists c. split; [right; exact Hin|exact Hc].
+  Qed.
+
+  Lemma stored_add_new ps r : forall s, stored r (add_parts ps r s) ps.
+  Proof.
+    induction ps as [|p ps IH]; intros [dyn rules stat].
+    - cbn [Trie.add_parts Trie.st_dyn Trie.st_rules Trie.st_stat]. constructor. apply in_or_app. right. left. reflexivity.
+    - destruct p as [k|d]; cbn [Trie.add_parts Trie.st_dyn Trie.st_rules Trie.st_stat].
+      + destruct (stat_upd_has k (add_parts ps r) stat) as (c & Hin & c0 & ->).
+        eapply stored_stat; [exact Hin|apply IH].
+      + destruct (dyn_upd_has d (add_parts ps r) dyn) as (c & Hin & c0 & ->).
+        eapply stored_dyn; [exact Hin|apply IH].
+  Qed.
+
+  Lemma stored_update_mono r : forall s sigma, stored r s sigma -> stored r (update s) sigma.
+  Proof.
+    induction s as [dyn rules stat IHd IHs] using state_ind'. intros sigma H. cbn [Trie.update]. inversion H; subst.
+    - constructor. assumption.
+    - eapply stored_stat; [|eapply IHs; eassumption].
+      apply in_map_iff. match goal with Hi : In (?k0, ?c0) stat |- _ => exists (k0, c0); split; [reflexivity|exact Hi] end.
+    - eapply stored_dyn; [|eapply IHd; eassumption].
+      apply in_sort_dyn. apply in_map_iff. match goal with Hi : In (?d0, ?c0) dyn |- _ => exists (d0, c0); split; [reflexivity|exact Hi] end.
+  Qed.
+
+  Theorem stored_build_conv rules r : In r rules -> stored r (build_trie rules) (rparts r).
+  Proof.
+    intro Hin. unfold Trie.build_trie. apply stored_update_mono.
+    assert (H : forall s0, stored r (fold_left (fun s r => add_parts (rparts r) r s) rules s0) (rparts r)).
+    { revert Hin. induction rules as [|r0 rs IH]; intros Hin s0; [destruct Hin|]. cbn [fold_left]. destruct Hin as [->|Hin].
+      - clear IH. generalize (add_parts (rparts r) r s0) (stored_add_new (rparts r) r s0). 
+        induction rs as [|r1 rs IH]; intros s1 Hs1; [exact Hs1|]. cbn [fold_left]. apply IH. apply stored_add_mono. exact Hs1.
+      - apply IH. exact Hin. }
+    apply H.
+  Qed.
+
+  (* --- every way a stored rule's transitions walk the path shows up as a candidate *)
+  Lemma stat_find_unique k c stat : NoDup (map fst stat) -> In (k, c) stat -> stat_find k stat = Some c.
+  Proof.
+    induction stat as [|[k0 c0] stat IH]; [intros _ []|]. cbn [map fst Trie.stat_find]. intros Hnd [Heq|Hin].
+    - injection Heq as -> ->. rewrite list_eqb_refl. reflexivity.
+    - inversion Hnd as [|? ? Hk0 Hnd']; subst. destruct (list_eqb k0 k) eqn:E.
+      + apply list_eqb_eq in E. subst k0. exfalso. apply Hk0. apply in_map_iff. exists (k, c). split; [reflexivity|exact Hin].
+      + exact (IH Hnd' Hin).
+  Qed.
+
+  Lemma stat_apply_find {A} (f : state -> A) dflt k stat :
+    Trie.stat_apply dpart rule f dflt k stat = match stat_find k stat with Some c => f c | None => dflt end.
+  Proof.
+    induction stat as [|[k0 c0] stat IH]; cbn [Trie.stat_apply Trie.stat_find]; [reflexivity|].
+    destruct (list_eqb k0 k); [reflexivity|exact IH].
+  Qed.
+
+  Lemma dyn_collect_incl f part rest values dyn d c g rem x :
+    In (d, c) dyn -> pmatch d part rest = Some (g, rem) -> In x (f c rem (values ++ g)) ->
+    In x (Trie.dyn_collect dpart rule pmatch f part rest values dyn).
+  Proof.
+    induction dyn as [|[d0 c0] dyn IH]; [intros []|]. intros [Heq|Hin] Hp Hx; cbn [Trie.dyn_collect].
+    - injection Heq as -> ->. rewrite Hp. apply in_or_app. left. exact Hx.
+    - destruct (pmatch d0 part rest) as [[g0 rem0]|]; [apply in_or_app; right|]; exact (IH Hin Hp Hx).
+  Qed.
+
+  Lemma cands_complete sigma : forall s parts values r caps lo,
+    wfk s -> stored r s sigma -> walk sigma parts = Some (caps, lo) ->
+    (lo = [] -> In (KHere, r, values ++ caps) (cands s parts values))
+    /\ (lo = [[]] -> In (KLate, r, values ++ caps) (cands s parts values)).
+  Proof.
+    induction sigma as [|p sigma IH]; intros s parts values r caps lo Hwf Hst Hw.
+    - cbn [Trie.walk] in Hw. injection Hw as <- <-. rewrite app_nil_r. inversion Hst; subst. split; intros ->.
+      + cbn [Trie.cands]. apply in_or_app. left. apply in_map_iff. eexists. split; [reflexivity|assumption].
+      + cbn [Trie.cands Trie.is_empty_part]. apply in_or_app. right. apply in_or_app. right.
+        apply in_map_iff. eexists. split; [reflexivity|assumption].
+    - inversion Hwf as [dyn rules stat Hnd Hws Hwd]; subst. destruct p as [k|d]; cbn [Trie.walk] in Hw;
+        destruct parts as [|part rest]; try discriminate; inversion Hst; subst.
+      + destruct (list_eqb k part) eqn:Ek; [|discriminate]. apply list_eqb_eq in Ek. subst part.
+        match goal with Hi : In (k, ?c) stat, Hc : stored r ?c sigma |- _ =>
+          destruct (IH c rest values r caps lo (Hws _ _ Hi) Hc Hw) as [I1 I2];
+          pose proof (stat_find_unique _ _ _ Hnd Hi) as Hf end.
+        split; intro Hlo; cbn [Trie.cands]; apply in_or_app; left; rewrite stat_apply_find, Hf; auto.
+      + destruct (pmatch d part rest) as [[g rem]|] eqn:Ep; [|discriminate].
+        destruct (walk sigma rem) as [[caps' lo']|] eqn:Ew; [|discriminate]. injection Hw as <- <-.
+        match goal with Hi : In (d, ?c) dyn, Hc : stored r ?c sigma |- _ =>
+          destruct (IH c rem (values ++ g) r caps' lo' (Hwd _ _ Hi) Hc Ew) as [I1 I2];
+          pose proof (fun x => dyn_collect_incl (fun c rem vals => cands c rem vals) part rest values dyn d c g rem x Hi Ep) as Hincl end.
+        rewrite app_assoc.
+        split; intro Hlo; cbn [Trie.cands]; apply in_or_app; right; apply in_or_app; left; apply Hincl; auto.
+  Qed.
+
+  Lemma cands_complete_slash sigma : forall s parts values r caps,
+    wfk s -> stored r s (sigma ++ [PStatic []]) -> walk sigma parts = Some (caps, []) ->
+    In (KSlash, r, values ++ caps) (cands s parts values).
+  Proof.
+    induction sigma as [|p sigma IH]; intros s parts values r caps Hwf Hst Hw.
+    - cbn [Trie.walk] in Hw. injection Hw as Hc Hp. subst caps parts. rewrite app_nil_r. cbn [app] in Hst.
+      inversion Hwf as [dyn rules stat Hnd Hws Hwd]; subst. inversion Hst; subst.
+      cbn [Trie.cands]. apply in_or_app. right.
+      match goal with Hi : In ([], ?c) stat, Hc : stored r ?c [] |- _ =>
+        rewrite (stat_find_unique _ _ _ Hnd Hi); inversion Hc; subst end.
+      apply in_map_iff. eexists. split; [reflexivity|]. cbn [Trie.st_rules]. assumption.
+    - inversion Hwf as [dyn rules stat Hnd Hws Hwd]; subst. cbn [app] in Hst. destruct p as [k|d]; cbn [Trie.walk] in Hw;
+        destruct parts as [|part rest]; try discriminate; inversion Hst; subst.
+      + destruct (list_eqb k part) eqn:Ek; [|discriminate]. apply list_eqb_eq in Ek. subst part.
+        match goal with Hi : In (k, ?c) stat, Hc : stored r ?c _ |- _ =>
+          pose proof (IH c rest values r caps (Hws _ _ Hi) Hc Hw) as I1;
+          pose proof (stat_find_unique _ _ _ Hnd Hi) as Hf end.
+        cbn [Trie.cands]. apply in_or_app. left. rewrite stat_apply_find, Hf. exact I1.
+      + destruct (pmatch d part rest) as [[g rem]|] eqn:Ep; [|discriminate].
+        destruct (walk sigma rem) as [[caps' lo']|] eqn:Ew; [|discriminate]. injection Hw as <- ->.
+        match goal with Hi : In (d, ?c) dyn, Hc : stored r ?c _ |- _ =>
+          pose proof (IH c rem (values ++ g) r caps' (Hwd _ _ Hi) Hc Ew) as I1;
+          pose proof (fun x => dyn_collect_incl (fun c rem vals => cands c rem vals) part rest values dyn d c g rem x Hi Ep) as Hincl end.
+        rewrite app_assoc. cbn [Trie.cands]. apply in_or_app. right. apply in_or_app. left. apply Hincl. exact I1.
+  Qed.
+
+  (* ------------------------------------------------------------------ candidates vs admits, at the root *)
+  Definition cand_adm (k : ckind) (r : rule) (caps : list str) : adm res :=
+    match k with
+    | KHere => Trie.convert_adm rule res rconvert r caps false
+    | KLate => if rstrict r then ANo res else Trie.convert_adm rule res rconvert r caps false
+    | KSlash => Trie.convert_adm rule res rconvert r caps (rstrict r)
+    end.
+  Definition step_of_adm (meth : str) (ws : bool) (r : rule) (a : adm res) : step res :=
+    match a with
+    | ANo _ => SSkip res
+    | ASlash _ => if Bool.eqb ws (rws r) && method_ok rule rmethods r meth then SSlashReq res else SSkip res
+    | ADirect _ v =>
+        if negb (method_ok rule rmethods r meth) then SMeth res (methods_of rule rmethods r)
+        else if negb (Bool.eqb (rws r) ws) then SWs res else SFound res v
+    end.
+
+  Lemma cand_step_adm meth ws k r caps :
+    cand_step meth ws (k, r, caps) = step_of_adm meth ws r (cand_adm k r caps).
+  Proof.
+    unfold Trie.cand_step, cand_adm, step_of_adm, Trie.convert_adm.
+    destruct k; cbn [andb]; destruct (rstrict r); cbn [andb]; destruct (rconvert r caps); reflexivity.
+  Qed.
+
+  Lemma strip_last_empty_some cs cs' : Trie.strip_last_empty dpart cs = Some cs' -> cs = cs' ++ [PStatic []].
+  Proof.
+    revert cs'. induction cs as [|c cs IH]; intros cs'; [discriminate|].
+    destruct c as [k|d].
+    - destruct k as [|x k].
+      + destruct cs as [|c2 cs2].
+        * cbn [Trie.strip_last_empty]. intro H. injection H as <-. reflexivity.
+        * change (Trie.strip_last_empty dpart (PStatic [] :: c2 :: cs2)) with
+            (option_map (cons (PStatic [])) (Trie.strip_last_empty dpart (c2 :: cs2))).
+          destruct (Trie.strip_last_empty dpart (c2 :: cs2)) as [t|] eqn:E; [|discriminate].
+          cbn [option_map]. intro H. injection H as <-. rewrite (IH _ eq_refl). reflexivity.
+      + cbn [Trie.strip_last_empty]. destruct (Trie.strip_last_empty dpart cs) as [t|] eqn:E; [|discriminate].
+        cbn [option_map]. intro H. injection H as <-. rewrite (IH _ eq_refl). reflexivity.
+    - cbn [Trie.strip_last_empty]. destruct (Trie.strip_last_empty dpart cs) as [t|] eqn:E; [|discriminate].
+      cbn [option_map]. intro H. injection H as <-. rewrite (IH _ eq_refl). reflexivity.
+  Qed.
+
+  Lemma root_cand_adm rules parts k r caps :
+    In (k, r, caps) (cands (build_trie rules) parts []) -> In r rules /\ admits r parts = cand_adm k r caps.
+  Proof.
+    intro Hin. apply cands_sound in Hin. destruct Hin as (sigma & caps' & Hv & Hst). cbn [app] in Hv. subst caps'.
+    unfold cand_adm. destruct k; destruct Hst as [Hst Hw]; apply stored_build in Hst; destruct Hst as [Hr Hsig]; (split; [exact Hr|]).
+    - subst sigma. unfold Trie.admits. rewrite Hw. reflexivity.
+    - unfold Trie.admits. rewrite <- Hsig, walk_app, Hw. cbn [Trie.walk]. rewrite strip_last_empty_app, Hw. reflexivity.
+    - subst sigma. unfold Trie.admits. rewrite Hw. reflexivity.
+  Qed.
+
+  Lemma root_adm_cand rules parts r :
+    In r rules -> admits r parts <> ANo res ->
+    exists k caps, In (k, r, caps) (cands (build_trie rules) parts []) /\ cand_adm k r caps = admits r parts.
+  Proof.
+    intros Hr Ha. pose proof (stored_build_conv rules r Hr) as Hst. pose proof (wfk_build rules) as Hwf.
+    unfold Trie.admits in *.
+    destruct (walk (rparts r) parts) as [[caps lo]|] eqn:Ew.
+    - destruct lo as [|l0 lo].
+      + destruct (cands_complete _ _ _ [] _ _ _ Hwf Hst Ew) as [I1 _]. exists KHere, caps. split; [exact (I1 eq_refl)|reflexivity].
+      + destruct l0 as [|x l0]; [destruct lo as [|l1 lo]|].
+        * destruct (cands_complete _ _ _ [] _ _ _ Hwf Hst Ew) as [_ I2]. exists KLate, caps. split; [exact (I2 eq_refl)|reflexivity].
+        * destruct (Trie.strip_last_empty dpart (rparts r)) as [cs'|] eqn:Es; [|contradiction].
+          apply strip_last_empty_some in Es. rewrite Es, walk_app in Ew.
+          destruct (walk cs' parts) as [[caps2 lo2]|] eqn:Ew2; [|discriminate].
+          destruct lo2 as [|? ?]; [cbn [Trie.walk] in Ew; discriminate|].
+          contradiction.
+        * destruct (Trie.strip_last_empty dpart (rparts r)) as [cs'|] eqn:Es; [|contradiction].
+          apply strip_last_empty_some in Es. rewrite Es, walk_app in Ew.
+          destruct (walk cs' parts) as [[caps2 lo2]|] eqn:Ew2; [|discriminate].
+          destruct lo2 as [|? ?]; [cbn [Trie.walk] in Ew; discriminate|].
+          contradiction.
+    - destruct (Trie.strip_last_empty dpart (rparts r)) as [cs'|] eqn:Es; [|contradiction].
+      apply strip_last_empty_some in Es.
+      destruct (walk cs' parts) as [[caps2 lo2]|] eqn:Ew2; [|contradiction].
+      destruct lo2 as [|? ?]; [|contradiction].
+      rewrite Es in Hst. exists KSlash, caps2. split; [|reflexivity].
+      exact (cands_complete_slash _ _ _ [] _ _ Hwf Hst Ew2).
+  Qed.
+
+  (* ------------------------------------------------------------------ what a fruitless scan says *)
+  Lemma scan_hit meth ws cs c :
+    In c cs -> (match cand_step meth ws c with SFound _ _ | SSlashReq _ => True | _ => False end) ->
+    fst (fst (scan meth ws cs)) <> MNone rule res.
+  Proof.
+    induction cs as [|c0 cs IH]; [intros []|]. intros [->|Hin] Hc; cbn [Trie.scan].
+    - destruct (cand_step meth ws c); try contradiction; cbn [fst]; discriminate.
+    - destruct (cand_step meth ws c0); try (cbn [fst]; discriminate); try exact (IH Hin Hc);
+        destruct (scan meth ws cs) as [[x h] w]; cbn [fst] in *; exact (IH Hin Hc).
+  Qed.
+
+  Lemma scan_none meth ws cs h w :
+    scan meth ws cs = (MNone rule res, h, w) ->
+    (forall x, In x h <-> exists c ms, In c cs /\ cand_step meth ws c = SMeth res ms /\ In x ms)
+    /\ (w = true <-> exists c, In c cs /\ cand_step meth ws c = SWs res).
+  Proof.
+    revert h w. induction cs as [|c cs IH]; cbn [Trie.scan]; intros h w H.
+    - injection H as <- <-. split; [intro x; split; [intros []|intros (c & ms & [] & _)]|split; [discriminate|intros (c & [] & _)]].
+    - destruct (cand_step meth ws c) eqn:Es.
+      + destruct (IH _ _ H) as [I1 I2]. split.
+        * intro x. rewrite I1. split; intros (c' & ms & Hin & Hs & Hx).
+          -- exists c', ms. split; [right; exact Hin|split; assumption].
+          -- destruct Hin as [->|Hin]; [rewrite Es in Hs; discriminate|]. exists c', ms. split; [exact Hin|split; assumption].
+        * rewrite I2. split; intros (c' & Hin & Hs).
+          -- exists c'. split; [right; exact Hin|exact Hs].
+          -- destruct Hin as [->|Hin]; [rewrite Es in Hs; discriminate|]. exists c'. split; assumption.
+      + destruct (scan meth ws cs) as [[x0 h'] w'] eqn:E. injection H as -> <- <-. destruct (IH _ _ eq_refl) as [I1 I2]. split.
+        * intro x. rewrite in_app_iff, I1. split.
+          -- intros [Hx|(c' & ms' & Hin & Hs & Hx)].
+             ++ exists c, ms. split; [left; reflexivity|split; assumption].
+             ++ exists c', ms'. split; [right; exact Hin|split; assumption].
+          -- intros (c' & ms' & [->|Hin] & Hs & Hx).
+             ++ rewrite Es in Hs. injection Hs as <-. left. exact Hx.
+             ++ right. exists c', ms'. split; [exact Hin|split; assumption].
+        * rewrite I2. split; intros (c' & Hin & Hs).
+          -- exists c'. split; [right; exact Hin|exact Hs].
+          -- destruct Hin as [->|Hin]; [rewrite Es in Hs; discriminate|]. exists c'. split; assumption.
+      + destruct (scan meth ws cs) as [[x0 h'] w'] eqn:E. injection H as -> <- <-. destruct (IH _ _ eq_refl) as [I1 I2]. split.
+        * intro x. rewrite I1. split; intros (c' & ms & Hin & Hs & Hx).
+          -- exists c', ms. split; [right; exact Hin|split; assumption].
+          -- destruct Hin as [->|Hin]; [rewrite Es in Hs; discriminate|]. exists c', ms. split; [exact Hin|split; assumption].
+        * split; [intros _; exists c; split; [left; reflexivity|exact Es]|reflexivity].
+      + discriminate.
+      + discriminate.
+  Qed.
+
+  (* ------------------------------------------------------------------ completeness of the search at the root *)
+  Theorem root_complete_hit rules meth ws parts r :
+    In r rules -> admits r parts <> ANo res -> method_ok rule rmethods r meth = true -> rws r = ws ->
+    fst (fst (smatch meth ws (build_trie rules) parts [])) <> MNone rule res.
+  Proof.
+    intros Hr Ha Hm Hw. rewrite smatch_scan. destruct (root_adm_cand _ _ _ Hr Ha) as (k & caps & Hin & Hk).
+    eapply scan_hit; [exact Hin|]. rewrite cand_step_adm, Hk. unfold step_of_adm.
+    destruct (admits r parts); [| |contradiction].
+    - rewrite Hm, Hw, Bool.eqb_reflx. exact I.
+    - rewrite Hm, Hw, Bool.eqb_reflx. exact I.
+  Qed.
+
+  Theorem root_none_char rules meth ws parts h w :
+    smatch meth ws (build_trie rules) parts [] = (MNone rule res, h, w) ->
+    (forall r, In r rules -> admits r parts <> ANo res -> method_ok rule rmethods r meth = true -> rws r = ws -> False)
+    /\ (forall x, In x h <-> exists r v, In r rules /\ admits r parts = ADirect res v
+                             /\ method_ok rule rmethods r meth = false /\ In x (methods_of rule rmethods r))
+    /\ (w = true <-> exists r v, In r rules /\ admits r parts = ADirect res v
+                             /\ method_ok rule rmethods r meth = true /\ rws r <> ws).
+  Proof.
+    intro H. split.
+    { intros r Hr Ha Hm Hw. apply (root_complete_hit rules meth ws parts r Hr Ha Hm Hw). rewrite H. reflexivity. }
+    rewrite smatch_scan in H. apply scan_none in H. destruct H as [H1 H2]. split.
+    - intro x. rewrite H1. split.
+      + intros ([[k r] caps] & ms & Hin & Hs & Hx). destruct (root_cand_adm _ _ _ _ _ Hin) as [Hr Ha].
+        rewrite cand_step_adm, <- Ha in Hs. unfold step_of_adm in Hs. destruct (admits r parts) as [v| |] eqn:Ea; try discriminate.
+        * destruct (method_ok rule rmethods r meth) eqn:Em; cbn [negb] in Hs.
+          -- destruct (negb (Bool.eqb (rws r) ws)); discriminate.
+          -- injection Hs as <-. exists r, v. auto.
+        * destruct (Bool.eqb ws (rws r) && method_ok rule rmethods r meth); discriminate.
+      + intros (r & v & Hr & Ha & Hm & Hx). assert (Hne : admits r parts <> ANo res) by (rewrite Ha; discriminate).
+        destruct (root_adm_cand _ _ _ Hr Hne) as (k & caps & Hin & Hk).
+        exists (k, r, caps), (methods_of rule rmethods r). split; [exact Hin|]. split; [|exact Hx].
+        rewrite cand_step_adm, Hk, Ha. unfold step_of_adm. rewrite Hm. reflexivity.
+    - rewrite H2. split.
+      + intros ([[k r] caps] & Hin & Hs). destruct (root_cand_adm _ _ _ _ _ Hin) as [Hr Ha].
+        rewrite cand_step_adm, <- Ha in Hs. unfold step_of_adm in Hs. destruct (admits r parts) as [v| |] eqn:Ea; try discriminate.
+        * destruct (method_ok rule rmethods r meth) eqn:Em; cbn [negb] in Hs; [|discriminate].
+          destruct (Bool.eqb (rws r) ws) eqn:Ew; cbn [negb] in Hs; [discriminate|].
+          exists r, v. repeat split; try assumption. intro Heq. rewrite Heq, Bool.eqb_reflx in Ew. discriminate.
+        * destruct (Bool.eqb ws (rws r) && method_ok rule rmethods r meth); discriminate.
+      + intros (r & v & Hr & Ha & Hm & Hw). assert (Hne : admits r parts <> ANo res) by (rewrite Ha; discriminate).
+        destruct (root_adm_cand _ _ _ Hr Hne) as (k & caps & Hin & Hk).
+        exists (k, r, caps). split; [exact Hin|].
+        rewrite cand_step_adm, Hk, Ha. unfold step_of_adm. rewrite Hm. cbn [negb].
+        destruct (Bool.eqb (rws r) ws) eqn:Ew; [apply Bool.eqb_prop in Ew; contradiction|reflexivity].
+  Qed.
 End Facts.
